@@ -42,7 +42,7 @@ def step (w : SWorld) (op : Op) : Option SWorld :=
       | some x, some y => some { w with bs := w.bs ++ [binV op x y] }
       | _, _ => none
   | .boffset s off start end_ => (w.bs[s]?).map (fun v => { w with bs := w.bs ++ [vofList (offsetV v off start end_)] })
-  | .bremap b | .bunmap b => (w.bs[b]?).map (fun _ => w)
+  | .bremap b | .bunmap b | .boptimize b => (w.bs[b]?).map (fun _ => w)
   | .rnew cols => some { w with rows := w.rows ++ [vofList cols] }
   | .rset x col => (w.rows[x]?).map (fun s => { w with rows := listSet w.rows x (vinsert col s) })
   | .rbin op a b =>
